@@ -776,7 +776,10 @@ namespace fsh
         {
             Line& l = scn[li];
             std::string cmd = l.next();
-            os << "C " << li << ' ' << cmd << "\n";
+            os << "C " << li;
+            for (auto& tk : l.t)
+                os << ' ' << tk;
+            os << "\n";
             if (cmd == "grid_common")
                 grid_common(grid, os);
             else if (cmd == "q")
